@@ -15,16 +15,16 @@ CLAIMED = {
             SCRIPT_NOTE,
             "DESIGN.md 4/C01"),
     "C02": ("Coq theorems (little-endian, two's-complement, NUL stripping, hex, response completeness) + correspondence + expectation judge on generated device values",
-            "Proved for all values: le_uint/le_int invert the wire encoding for widths 1,2,4,8 over the full range (bit 63 included), other widths are an error, strip_nul removes exactly the trailing NULs, every valid response (any hex case) is accepted with exactly its payload. Driver-level round trip is checked on exhaustive 1-byte (quick) / 2-byte (thorough) values, boundary and random 4/8-byte values, strings up to 64 bytes, device ids and call sequences.",
+            "C02_driver_roundtrip (through the C04 refinement): an idle driver whose first attempt is answered by optional noise plus the frame a conforming device sends for (addr, v), cut into data events in any way, returns exactly v after one frame. Proved for all values: le_uint/le_int invert the wire encoding for widths 1,2,4,8 over the full range (bit 63 included), other widths are an error, strip_nul removes exactly the trailing NULs, every valid response (any hex case) is accepted with exactly its payload. Driver-level round trip is checked on exhaustive 1-byte (quick) / 2-byte (thorough) values, boundary and random 4/8-byte values, strings up to 64 bytes, device ids and call sequences.",
             SCRIPT_NOTE + "Partial: aliasing of returned slices is exercised by the harness only.",
             "DESIGN.md 4/C02"),
     "C03": ("Coq theorem over the frame model (all nibbles, all addresses, all payloads) + exhaustive model/code correspondence on all 7x65536 frames",
             "Theorems C03_wellformed, C03_wellformed_any_payload, C03_get_payload, C03_no_payload are proved in Coq for every command nibble and every address/payload (induction, no enumeration). The model tx_frame is tied to the code by comparing, on every run, all 720 898 frames the real driver writes through every public entry point with the extracted model (the domain is finite, the tie is exact) and judging each observed frame with the independent grammar; frames written under write/read/flush faults and retries are judged on the scripted-port corpus.",
             "Trusted: Coq kernel, extraction (ExtrOcamlBasic), OCaml driver, Go harness. Go's fmt verbs are modelled, not verified.",
             "DESIGN.md 4/C03"),
-    "C04": ("Coq theorems on the retry loop (at most eight writes, frames written, value returned at once) + abstract line machine (Resync.v) evaluated against the implementation + correspondence",
-            "Proved for all states, scripts and fault schedules: a register access performs at most eight Write calls, each the Get frame of the address; the first attempt consuming a valid matching response ends the access with its value. The abstract line machine (bytes and barriers; chunking, buffer and read bookkeeping erased) gives the expected result and frame count for every fault-free script; implementation and concrete model are compared with it on all generated reaction sequences and idle/busy histories.",
-            SCRIPT_NOTE + "Partial: refinement of the concrete model to the abstract machine is checked per case, not yet proved.",
+    "C04": ("Coq refinement theorem: the concrete driver (events, bufio, fuel, eight tries) equals the abstract line machine on every fault-free script; corollaries in the property's words proved on the abstract machine; correspondence + abstract machine as judge",
+            "C04_refines: for every logger configuration, address, idle flag and every state with a clean script (data cut into events in any way, read timeouts/errors anywhere, any stale bytes; no write faults, no empty reads) the concrete model returns exactly the abstract line machine's result, writes exactly as many frames and leaves exactly its left-over. On the abstract machine: C04_success (k-1 failing attempts — noise without ':', async frames, partial frame, silence, one invalid/foreign/short line — then a valid matching response at attempt k <= 8: value after exactly k frames), C04_gives_up (exactly eight frames), C04_noise_fails, C04_idle_flush (idle: result independent of stale bytes). For arbitrary scripts incl. faults: C04_never_more_than_8, C04_frames_written, C04_value_at_once. The implementation is compared with concrete model and abstract machine on all reaction sequences up to length 3/4 and random ones up to 9, stale/idle histories, first-call stale data.",
+            SCRIPT_NOTE + "The refinement excludes empty reads and no-progress ports (covered by C06's bounds and the judge).",
             "DESIGN.md 4/C04"),
     "C05": ("Coq theorems (flag -> typed error, loop ends at once, one Write per exchange) + correspondence + expectation judge",
             "Proved: a Get response for the requested address with flag 1, 2 or 4 (any trailing payload) is classified as ErrUnknownId / ErrorNotSupported / ErrorParameterError, the retry loop returns it in the state reached after that single exchange, and an exchange performs exactly one Write. Checked on the implementation for all accessors, boundary and random addresses, 0..8 trailing bytes, async prefixes and every flag byte.",
